@@ -35,7 +35,8 @@ URLS = ["http://a.b", "https://x/y?z=1", "ftp://h", "mailto:x", "//nohost", "nos
 BYTES = [b"", b"ab", b"\x00\xff", "text", "\u00e9", "\udc80", b"Z", "aGVsbG8=", b"\xde\xad\xbe\xef" * 3, 5, None]
 SECRETS = ["s3cr3t!#1", "p\u00e4ss w\u00f6rd!", "hunter2!!", "x!y@z#", "tok!en~value", "pw!|one", "!!secret!!",
            "a-much-longer-secret!-that-exceeds-the-32-byte-key-length#0123456789", "user:pa!ss", "\u00e9!" * 25,
-           "exactly-32-bytes-long-secret!!#32", "33-bytes-long-secret-value!!#0033x"]
+           "exactly-32-bytes-long-secret!!#32", "33-bytes-long-secret-value!!#0033x",
+           "sixteen-bytes!16", "a-secret-of-exactly-thirty-two!#", "48-bytes:" + "x!" * 19 + "#", "\u00e9\u00e9!!" * 4 + "pad!"[:0] + "!!!!!!!!"]
 CHALLENGES = ["pw!one", b"pw!two", "", "\u00fcn\u00ef!", "x!" * 20, b"\x00\xff!", "pw!one ", "Pw!one", 5, None, ["pw"], "user:pass", "root:toor!",
               ":"]
 PLAIN = [None, True, False, 0, 7, -3, 2 ** 40, 1.5, -0.0, 0.1 + 0.2, [1 / 3, 1e22], "str", "", "x y", [], [1], [1, "two", None], {}, {"a": 1},
